@@ -1,31 +1,58 @@
 /-!
 Reviewed policy for process-global writable state of the library (C06).  `Gen/Globals.lean` lists what the build of the
-current source contains; every entry must be accounted for here.
+current source contains (every object symbol — strong or weak, so also function-local statics of inline and template
+functions, static members of class templates and inline variables — whose section is writable at run time); every entry
+must be accounted for here, **each with its reason**.
 
-`allowed` — symbols that cannot carry information between instances:
-  * the two locks and the instance registry they guard (`IPhreeqc.cpp`: every access is inside `map_lock`,
-    obligation `registry_accesses_guarded`);
-  * lookup tables that are written only by their static initialiser before `main` and read afterwards
-    (`…::vopts`, their `temp_vopts` sources, keyword and BASIC token tables, `IPhreeqc::Version`,
-    `Phreeqc::iso_defaults`, the unit-name table of `CParser::check_units`, the constant `F_Re3`).
+Kinds of reason:
+  * `lock`      — a mutex of thread.h;
+  * `guarded`   — the instance registry: every access lies inside `map_lock` (obligation `registry_accesses_guarded`);
+  * `initOnly`  — a lookup table that is filled by its (dynamic) initialiser before `main` and never written afterwards:
+                  backed by the source reading `Gen.Globals.initOnly` (no assignment, increment, container mutation or
+                  address-taking anywhere in src/; obligation `init_only_tables_never_written`);
+  * `compiler`  — emitted by the compiler for exception handling, resolved by the loader, not reachable from the source.
 `knownShared` — file-scope *variables* of `src/phreeqcpp/transport.cpp` that TRANSPORT calculations read and write
   (multicomponent diffusion work arrays, counters).  They are shared by all instances of the process: a genuine
-  departure from C06, recorded in /verif/known_findings.txt under the key `transport-file-scope-globals`.
+  departure from C06, recorded in /verif/known_findings.txt under the key `transport-file-scope-globals`
+  (observable without any race detector: two multicomponent-diffusion runs nested on one thread crash the process).
 -/
 namespace PhreeqcVerif.GlobalsPolicy
 
-def allowedExact : List String := [
-  "map_lock", "qsort_lock", "IPhreeqc::Instances", "IPhreeqc::InstancesIndex", "IPhreeqc::Version",
-  "Keywords::phreeqc_keywords", "Keywords::phreeqc_keyword_names", "temp_keywords", "temp_keyword_names",
-  "PBasic::command_tokens", "temp_tokens", "temp_vopts", "Phreeqc::iso_defaults",
-  "CParser::check_units()::units", "F_Re3"]
+inductive Why where
+  | lock | guarded | initOnly (table : String) | compiler
+deriving DecidableEq, Repr
+
+/-- (symbol, kind of reason, reason in words) -/
+def allowedWhy : List (String × Why × String) := [
+  ("map_lock", .lock, "mutex guarding the instance registry (thread.h)"),
+  ("qsort_lock", .lock, "mutex around the C library sort (thread.h macro)"),
+  ("IPhreeqc::Instances", .guarded, "id -> object map; all 6 accesses inside map_lock"),
+  ("IPhreeqc::InstancesIndex", .guarded, "next id; incremented inside map_lock in the constructor only"),
+  ("IPhreeqc::Version", .initOnly "Version", "std::string built from VERSION_STRING; only .c_str() is taken"),
+  ("Keywords::phreeqc_keywords", .initOnly "phreeqc_keywords", "const std::map built from temp_keywords; find/end only"),
+  ("Keywords::phreeqc_keyword_names", .initOnly "phreeqc_keyword_names", "const std::map built from temp_keyword_names; find/end only"),
+  ("temp_keywords", .initOnly "temp_keywords", "const value_type[] feeding phreeqc_keywords"),
+  ("temp_keyword_names", .initOnly "temp_keyword_names", "const value_type[] feeding phreeqc_keyword_names"),
+  ("PBasic::command_tokens", .initOnly "command_tokens", "std::map built from temp_tokens; find/begin/end only (not declared const)"),
+  ("temp_tokens", .initOnly "temp_tokens", "const value_type[] feeding command_tokens"),
+  ("temp_vopts", .initOnly "temp_vopts", "const value_type[] feeding the option list of one reader class (one per translation unit)"),
+  ("Phreeqc::iso_defaults", .initOnly "iso_defaults", "const table of default isotope ratios; read by inverse.cpp and spread.cpp"),
+  ("F_Re3", .initOnly "F_Re3", "F/(R*1000), computed once by its initialiser; read in transport.cpp (not declared const)"),
+  ("DW.ref.*", .compiler, "pointer to the personality routine / a typeinfo used by the unwinder's tables, one per object file")]
+
+def allowedExact : List String := allowedWhy.map (·.1)
 
 def knownShared : List String := [
   "tk_x2", "dV_dcell", "find_current", "token", "dif_spec_names", "dif_els_names", "neg_moles", "els",
   "Ct2", "l_tk_x2", "A", "LU", "mixf", "mixf_stag", "mixf_comp_size", "current_cells", "sum_R", "sum_Rd", "ct",
   "cell_J_ij", "moles_added", "count_moles_added"]
 
-/-- `last` is the last `::` component of `name` (emitted by the translator) -/
+/-- `last` is the last `::` component of `name` (emitted by the translator); `X::vopts` is the const option list of reader
+class `X` (reason: `initOnly "vopts"`) -/
 def allowed (name last : String) : Bool := allowedExact.contains name || (last == "vopts" && name != last)
+
+/-- the tables whose "never written" claim must be backed by the source reading -/
+def initOnlyTables : List String :=
+  "vopts" :: allowedWhy.filterMap (fun e => match e.2.1 with | .initOnly t => some t | _ => none)
 
 end PhreeqcVerif.GlobalsPolicy
